@@ -23,6 +23,7 @@ import DfolsVerif.Accept.IterAcc
 import DfolsVerif.Accept.DiagAcc
 import DfolsVerif.Proofs.DiagTable
 import DfolsVerif.Proofs.MainLoopPaths
+import DfolsVerif.Proofs.CtrlPaths
 
 namespace Dfols
 namespace C18
@@ -368,6 +369,26 @@ theorem C18_diag_rectangular (ops : List DiagTable.Op) (hsf : DiagTable.savedFir
 theorem C18_src_no_stall {tr : List String} {e : Skel.Ending} (hx : Skel.Exec Gen.mainLoop tr e) (he : e = .cont) :
     ∃ a ∈ tr, MainLoopPaths.isProgress a = true :=
   MainLoopPaths.prog_trace hx he
+
+/-- **a geometry fix is an evaluation** (skeletons of the two Controller methods, every execution path): `check_and_fix_geometry`
+    leaves by `return` only and reports `did_fix_geom = True` only after it has called `geometry_step`; `geometry_step` leaves by
+    `return` only and returns no exit object only after it has evaluated the new point and stored it with `change_point`.  In the
+    main loop the test `did_fix_geom` is reached only behind `exit_info is None` — so the sixth kind of progress in
+    `C18_src_no_stall` is an evaluation too. -/
+theorem C18_src_geom_fix_evaluates :
+    (∀ {tr : List String} {e : SkelL.Ending}, SkelL.Exec Gen.Ctrl.checkAndFixGeometry tr e →
+      e = .ret ∧ ((CtrlPaths.mG.run CtrlPaths.qG0 tr).retTrue = true → (CtrlPaths.mG.run CtrlPaths.qG0 tr).geomstep = true)) ∧
+    (∀ {tr : List String} {e : SkelL.Ending}, SkelL.Exec Gen.Ctrl.geometryStep tr e →
+      e = .ret ∧ ((CtrlPaths.mG.run CtrlPaths.qG0 tr).retNone = true →
+        (CtrlPaths.mG.run CtrlPaths.qG0 tr).eval = true ∧ (CtrlPaths.mG.run CtrlPaths.qG0 tr).chg = true)) :=
+  ⟨fun hx => CtrlPaths.checkfix_trace hx, fun hx => CtrlPaths.geomstep_trace hx⟩
+
+/-- in the main loop a `did_fix_geom` test that holds is reached only after `check_and_fix_geometry` was called and `exit_info is not
+    None` was found false since (monitor `MainLoopPaths.mGeomGuard` never reaches its error state 3 on any execution path) — the
+    hypothesis under which `C18_src_geom_fix_evaluates` makes `T:did_fix_geom` an evaluation -/
+theorem C18_src_did_fix_geom_guarded {tr : List String} {e : Skel.Ending} (hx : Skel.Exec Gen.mainLoop tr e) :
+    MainLoopPaths.mGeomGuard.run 0 tr ≠ 3 :=
+  MainLoopPaths.geomguard_trace hx
 
 end C18
 end Dfols
